@@ -310,6 +310,23 @@ Definition custom_watershed (E : list edge) (f : list Z) (th : option Z) : optio
                map (ws_label E f th) (seq 0 (length f)))
   end.
 
+(* the same function with the shared tables (parents, roots, labels) computed once; this is what
+   the correspondence evaluates (Proofs3.custom_watershed_fast_eq : equal to custom_watershed) *)
+Definition custom_watershed_fast (E : list edge) (f : list Z) (th : option Z) : option (list nat * list Z) :=
+  match above_list f th with
+  | [] => None
+  | _ =>
+      let V := length f in
+      let al := above_list f th in
+      let p := ws_parents E f th in
+      let rootl := map (fun i => iter_n V (par p) i) (seq 0 V) in
+      let roots := uniq (map (fun i => nth i rootl 0) al) in
+      let labn := map (fun i => index_of (nth i rootl 0) roots) (seq 0 V) in
+      Some (map (fun c => match filter (fun m => nth m labn 0 =? c) al with [] => 0 | m :: r => argmax_first f r m end)
+                (seq 0 (length roots)),
+            map (fun i => if aboveb th (zat f i) then Z.of_nat (nth i labn 0) else (-1)%Z) (seq 0 V))
+  end.
+
 (* ------------------------------------------------------------------ *)
 (** * threshold_bifurcations (field.py:358-436), one feature column          *)
 
